@@ -39,6 +39,10 @@ func (g *GTPv2) DecodeFromBytes(data []byte, df gopacket.DecodeFeedback) error {
 	if dLen < hLen {
 		return fmt.Errorf("GTP packet too small: %d bytes", dLen)
 	}
+	// DecodeFromBytes must totally reset the layer: TEID is only present with the T flag and
+	// the IEs are appended below.
+	g.TEID = 0
+	g.IEs = g.IEs[:0]
 	g.Version = (data[0] >> 5) & 0x07
 	g.PiggybackingFlag = ((data[0] >> 4) & 0x01) == 1
 	g.TEIDflag = ((data[0] >> 3) & 0x01) == 1
